@@ -319,17 +319,15 @@ class RDD:
                                 number_of_big_groups + number_of_small_groups)
                for _ in range(small_group_size)]
         )
-        new_partitions = {i: [] for i in range(new_num_partitions)}
-
         def partitioned():
-            def move_partition_content(partition_index, partition):
-                new_partitions[partition_mapping[partition_index]] += partition
-                return []
+            # the partition contents have to come back as task results: a
+            # driver-side container filled from inside the tasks stays empty
+            # on a process pool and is filled in task order on a thread pool
+            new_partitions = [[] for _ in range(new_num_partitions)]
+            for partition_index, content in enumerate(self.glom().collect()):
+                new_partitions[partition_mapping[partition_index]] += content
 
-            # trigger an evaluation with count
-            self.mapPartitionsWithIndex(move_partition_content).count()
-
-            for p in list(new_partitions.values()):
+            for p in new_partitions:
                 yield p
 
         # noinspection PyProtectedMember
